@@ -465,7 +465,8 @@ func TestVerifRaceSystem(t *testing.T) {
 			cnt.inc("expiry sweep (replica of main)")
 		})
 	}
-	for r := 0; r < restores; r++ {
+	restoreUntil := time.Now().Add(time.Duration(ms/3) * time.Millisecond)
+	for r := 0; r < restores && (r < 2 || time.Now().Before(restoreUntil)); r++ {
 		if err := node.Snapshot().Error(); err != nil {
 			continue
 		}
@@ -485,7 +486,7 @@ func TestVerifRaceSystem(t *testing.T) {
 		} else {
 			cnt.inc("raft restore failed: " + err.Error())
 		}
-		time.Sleep(time.Duration(ms/3/int64(restores+1)) * time.Millisecond)
+		time.Sleep(60 * time.Millisecond)
 	}
 	atomic.StoreInt32(&stop, 1)
 	wg.Wait()
